@@ -412,7 +412,7 @@ def gen_scenarios(kind, tier, rng):
         # threads racing on the SAME dependents: g dependents exist (primary already disposed or not), every
         # thread disposes 1-2 of them (so that with 2-3 threads and g <= 2 some dependent is disposed by two
         # threads, or twice by one) or disposes the primary
-        for _ in range(n):
+        for _ in range(n if tier == "quick" else n // 2):
             g = rng.choice([1, 1, 2])
             setup = [("getdep",)] * g + ([("dispose",)] if rng.random() < 0.4 else [])
             calls = [("disp_dep", k) for k in range(g)] * 2 + [("dispose",)]
@@ -629,7 +629,9 @@ def run_k3(chk, kinds, tier, stats, bound=None):
                                           {"mode": "concurrent", "granularity": mode, "kind": kind, "setup": setup,
                                            "programs": progs, "schedule": sched, "implementation_log": log,
                                            "oracle": tag, "what": msg, **conc_extra(kind, w)},
-                                          size=100 + len(sched))
+                                          # failures of the resource's fate are reported before the mechanism-level
+                                          # "release() twice for one dependent" (same runs, often harmless in the end)
+                                          size=(1000 if tag == "dependent-released-twice" else 100) + len(sched))
                         if not fine:
                             per_kind[kind].append((setup, progs, c.setup_steps, sched, log))
                             if kind == "refcount":
@@ -640,7 +642,8 @@ def run_k3(chk, kinds, tier, stats, bound=None):
 
     def corr(kind):
         return kind, D.conc_correspondence(chk.pid, kind, per_kind[kind])
-    with ThreadPoolExecutor(max_workers=len(kinds)) as ex:
+    with ThreadPoolExecutor(max_workers=len(kinds) + 1) as ex:
+        rel_future = ex.submit(D.release_correspondence, chk.pid, rel_cases) if rel_cases else None
         for kind, (badidx, logs) in ex.map(corr, kinds):
             cases = per_kind[kind]
             chk.cov["traces_validated_against_impl"] += len(cases)
@@ -653,8 +656,8 @@ def run_k3(chk, kinds, tier, stats, bound=None):
                     detail["model_says"] = D.conc_model_show(chk.pid, kind, *firsts[0][:4])
                 chk.tie_broken(f"correspondence K3: transition system of {kind} vs implementation under the same schedule",
                                detail)
-    if rel_cases:
-        badidx, logs = D.release_correspondence(chk.pid, rel_cases)
+    if rel_future is not None:
+        badidx, logs = rel_future.result()
         chk.cov["traces_validated_against_impl"] += len(rel_cases)
         chk.cov["disagreements_checked"] += len(rel_cases)
         stats["k3_release_profiles_compared"] = len(rel_cases)
@@ -695,7 +698,8 @@ def run_check(chk, kinds, what, extra_assumptions=(), regressions=None):
         "distinct (class, init, history).  Re-entrant histories (an item's first dispose() / the action calls back into the "
         "object; Disposable, Composite, Serial, RefCount): ORACLE ONLY, the models and theorems do not cover them; "
         "counted when a nested call really happened.  K3 (threads): fixed racing scenarios plus seeded random ones (2-3 threads, 1-2 "
-        f"calls each, optional sequential setup), ALL schedules with at most {bound} preemptions in the model's "
+        f"calls each, optional sequential setup; RefCount: plus a family in which 2-3 threads each dispose 1-2 of the 1-2 "
+        "existing dependents or the primary, so that the SAME dependent is disposed by several threads), ALL schedules with at most {bound} preemptions in the model's "
         "granularity (coarse: every scheduled step is one action of Core/DispConc.v; compared step-for-step with the "
         "Coq transition system under the same schedule) and, for the oracle only, at line granularity with yields "
         "inside locked blocks (bounded enumeration capped per scenario + random schedules); non-trivial = a schedule "
@@ -726,7 +730,11 @@ def run_check(chk, kinds, what, extra_assumptions=(), regressions=None):
             "the Coq transition systems assume; self-tested on a racy and a locked toy class on each run",
             "models Core/Disposables.v and Core/DispConc.v are hand-written from the code and tied to it by the K1/K3 "
             "correspondence of this run (not extracted)",
-        ],
+        ] + ([
+            "Core/RefCountOnce.v: ghost counter of the steps that go on to call release() for a handle, tied to the "
+            "real class by comparing it with the calls seen by an instance-level spy on RefCountDisposable.release "
+            "(attributed to the handle whose dispose() the calling thread began last) under the same schedules",
+        ] if "refcount" in kinds else []),
         assumptions=[
             "CPython executes the bytecodes of different threads as an interleaving (GIL) and attribute loads/stores "
             "are atomic; a `with self.lock:` block is atomic with respect to every other access of the same object "
